@@ -48,7 +48,10 @@ Ltac znorm :=
   repeat match goal with
   | E : nth_error ?l ?n = Some _ |- context [zlen (remove_nth ?n ?l)] => rewrite (zlen_remove_nth n l _ E)
   end;
-  rewrite ?zlen_cons', ?zlen_rev, ?zlen_nil, ?zlen_insert_at, ?zlen_set_nth', ?zlen_repeat, ?zlen_app in *;
+  unfold excess, droots in *; dsimp; cbn [slen] in *;
+  repeat rewrite zlen_cons' in *;
+  rewrite ?zlen_rev, ?zlen_nil, ?zlen_insert_at, ?zlen_set_nth', ?zlen_repeat, ?zlen_app in *;
+  repeat rewrite zlen_cons' in *;
   try (rewrite zlen_firstn_Z by lia); try (rewrite zlen_skipn_Z by lia).
 
 Ltac fin :=
@@ -138,10 +141,29 @@ End Ops.
 Definition dres_flat (x0 : Z) (r : dres) : Prop :=
   match r with DOk d => flat_d d /\ excess d = x0 | DThrow e d => prim e /\ flat_d d /\ excess d = x0 | DFault => True end.
 
-Theorem exec_data_flat e op p d :
-  flat_d d -> creator op = false -> dres_flat (excess d) (exec_data e op p d).
+Lemma initslot_local_flat d nl : flat_d d -> d_local d = None -> 0 <= nl ->
+  let d1 := if 0 <? nl then set_refs (set_local d (Some (repeat INull (Z.to_nat nl)))) (d_refs d + nl) else d in
+  flat_d d1 /\ excess d1 = excess d /\ d_es d1 = d_es d /\ d_args d1 = d_args d.
 Proof.
-  intros H C. unfold exec_data.
+  intros (A & B & C & D & E) L N. cbv zeta. case_if; [|repeat split; assumption].
+  repeat split; dsimp; try assumption; try (apply Forall_repeat; reflexivity).
+  unfold excess, droots. dsimp. rewrite L. cbn [slen]. rewrite zlen_repeat. lia.
+Qed.
+Lemma initslot_args_flat d na : flat_d d -> d_args d = None -> 0 <= na <= zlen (d_es d) ->
+  let d2 := set_es (set_args d (Some (firstn (Z.to_nat na) (d_es d)))) (skipn (Z.to_nat na) (d_es d)) in
+  flat_d d2 /\ excess d2 = excess d.
+Proof.
+  intros (A & B & C & D & E) L N. cbv zeta. split.
+  - repeat split; dsimp; try assumption; [apply Forall_skipn|apply Forall_firstn]; assumption.
+  - unfold excess, droots. dsimp. rewrite L. cbn [slen]. rewrite zlen_firstn_Z, zlen_skipn_Z by lia. lia.
+Qed.
+
+Definition nonneg_bytes (p : list Z) : Prop := Forall (fun b => 0 <= b) p.
+
+Theorem exec_data_flat e op p d :
+  flat_d d -> creator op = false -> nonneg_bytes p -> dres_flat (excess d) (exec_data e op p d).
+Proof.
+  intros H C NN. unfold exec_data.
   enough (R : res_flat (excess d) (exec_data_opt e op p d)).
   { destruct (exec_data_opt e op p d) as [[]|]; exact R || exact I. }
   assert (X : excess d = excess d) by reflexivity. revert X. generalize (excess d) at 2 3 as x0. intros x0 X.
@@ -166,6 +188,18 @@ Proof.
     | solve [apply op_haskey_flat; assumption]
     | solve [apply op_memcpy_flat; assumption]
     | solve [opensf; first [apply ld_flat | apply st_flat | apply op_convert_flat]; assumption]
+    | solve [unfold op_setitem; tf]
     | solve [tf]
     | idtac ].
+  - (* INITSSLOT *) destruct p as [|n p']; [exact I|]. inv NN. cbn [param0]. tf.
+  - (* INITSLOT *) destruct p as [|nl [|na [|? ?]]]; try exact I. inv NN. inv H3.
+    destruct (d_local d) eqn:EL; [exact I|]. destruct (d_args d) eqn:EA; [exact I|].
+    case_if; [exact I|].
+    destruct (initslot_local_flat d nl H EL H2) as (F1 & X1 & Es1 & Ar1). cbv zeta in F1, X1, Es1, Ar1.
+    set (d1 := if 0 <? nl then set_refs (set_local d (Some (repeat INull (Z.to_nat nl)))) (d_refs d + nl) else d) in *.
+    case_if; [|unfold ok; cbn [res_flat]; split; [assumption|lia]].
+    case_if; [exact I|]. unfold ok; cbn [res_flat].
+    assert (EA1 : d_args d1 = None) by congruence.
+    destruct (initslot_args_flat d1 na F1 EA1 ltac:(lia)) as [F2 X2]. cbv zeta in F2, X2.
+    split; [exact F2|lia].
 Qed.
